@@ -252,3 +252,29 @@ EXTRA = {
            "the id collector never aborts its traversal.",
     "C29": " Also: different rigid lifetimes are always related through push_lifetime_outlives_goals with the ambient variance.",
 }
+
+# clauses added in the third build session (DESIGN.md section 9.2)
+EXTRA3 = {
+    "C04": " Third session: the recursive solver's SCC bookkeeping (links reported for every search-graph hit) and the fixed-point decision table "
+           "are shared with C01 (a definite answer computed from a provisional cycle value contradicts the other engine).",
+    "C06": " Third session: no element-dropping adaptor in any ToProgramClauses lowering (inventory, expected count 0, positive control).",
+    "C07": " Third session: the clause pre-filter answers true for every kind pair with an alias on either side (90 pairs); no "
+           "element-dropping adaptor in any ToProgramClauses lowering.",
+    "C08": " Third session: every return of add_sized/copy/tuple_program_clauses sits inside an arm of the TyKind table (no early exit "
+           "that bypasses the structural rule).",
+    "C09": " Third session: select_subgoal answers Selected only behind the false edge of Table::is_floundered (justifies the engine "
+           "assertion in on_subgoal_selected).",
+    "C17": " Third session: every MayInvalidate function is a disjunction of its component tests (symbolic evaluation: one differing "
+           "component alone makes the result true).",
+    "C18": " Third session: the four pre-selection sites discard a candidate only through could_match / trait-id equality (who-may-reject).",
+    "C19": " Third session: disjoint and specializes return only after the solver call on the goal they built; `true` is produced only "
+           "from the solver's answer.",
+    "C20": " Third session: no element-dropping adaptor in any ToProgramClauses lowering.",
+    "C21": " Third session: no element-dropping adaptor in any ToProgramClauses lowering (the WF rule mentions every where clause).",
+    "C23": " Third session: one name table per log (WriterState::new only from LoggingRustIrDatabase::new; the stub pass shares it "
+           "through wrap_db_ref).",
+    "C24": " Third session: calls from the region into panicking chalk-ir APIs are an audited inventory; the parser/lowering contract "
+           "`args[0]` of every ast::TraitRef is GenericArg::Ty is checked on the compiled grammar actions.",
+}
+for _k, _v in EXTRA3.items():
+    EXTRA[_k] = EXTRA.get(_k, "") + _v
